@@ -178,6 +178,9 @@ class FakeKernel:
         self.points = 0
         self.lines = 0
         self.abort_at = scn.get("abort_at")
+        # the most recently spawned running child exits and SIGCHLD is handled right before the k-th executed line of
+        # Conductor's own code (a signal handler can run between any two lines, not only around system calls)
+        self.sigchld_at = scn.get("sigchld_at")
         self.abort_sig = scn.get("abort_sig", "SIGINT")
         self.abort_after_fork_of = scn.get("abort_after_fork")  # ordinal of spawn after which to abort
         self.aborted = False
@@ -545,6 +548,18 @@ class FakeKernel:
             self.lines += 1
             if self.line_log is not None:
                 self.line_log.append((os.path.basename(frame.f_code.co_filename), frame.f_lineno, frame.f_code.co_name))
+            if self.sigchld_at is not None and self.lines == self.sigchld_at and not self.in_handler:
+                import linecache
+                if linecache.getline(frame.f_code.co_filename, frame.f_lineno).lstrip().startswith("except "):
+                    self.sigchld_at += 1
+                else:
+                    self.sigchld_at = None
+                    run = self.running()
+                    if run:
+                        self.do_exit(max(run))
+                        self.ev(e="LineSignal", file=os.path.basename(frame.f_code.co_filename), line=frame.f_lineno)
+                    if self.pending and callable(self.handlers.get(signal.SIGCHLD)):
+                        self.deliver()
             if self.abort_at is not None and self.lines == self.abort_at and not self.aborted:
                 import linecache
                 if linecache.getline(frame.f_code.co_filename, frame.f_lineno).lstrip().startswith("except "):
@@ -614,7 +629,7 @@ def run_cond(scn, root, chooser=None):
     fk.install()
     sys.stdout, sys.stderr = out, err
     try:
-        if fk.abort_at is not None or fk.line_log is not None or scn.get("count_lines"):
+        if fk.abort_at is not None or fk.sigchld_at is not None or fk.line_log is not None or scn.get("count_lines"):
             sys.settrace(fk.tracer)
         try:
             cm.main()
@@ -640,6 +655,8 @@ def run_cond(scn, root, chooser=None):
     else:
         kind = "none"
     live = sorted(p for p, s in fk.proc.items() if s in ("running", "zombie", "stopped"))
+    if "has been aborted" in errtxt:
+        fk.banners.append("abort-reported")       # "ERROR: Conductor's execution has been aborted by the user."
     fk.ev(e="Return", exit=status, exc=exc, stderr_kind=kind, failed=fk.failed_list, skipped=fk.skipped_list,
           banners=fk.banners, live=live, unreaped_tasks=[fk.task_of[p] for p in live])
     return {
